@@ -11,13 +11,15 @@ VERIF = os.path.dirname(HERE)
 sys.path.insert(0, HERE)
 
 props = [json.loads(l) for l in open(os.path.join(VERIF, "properties.jsonl"))]
+# only checks that were reviewed and seen quiet on the unchanged tree at several seeds are claimed
+READY = set(json.load(open(os.path.join(HERE, "ready.json"))))
 checks, na, served = [], [], []
 for p in props:
     pid = p["id"]
     meta = None
     if os.path.exists(os.path.join(HERE, "props", pid.lower() + ".py")):
         meta = getattr(importlib.import_module("props." + pid.lower()), "META", None)
-    if not meta or not meta.get("claimed"):
+    if not meta or not meta.get("claimed") or pid not in READY:
         na.append({"property_id": pid, "reason": (meta or {}).get("reason", "check under construction (DESIGN.md §8 build order); not claimed yet")})
         continue
     served.append(pid)
